@@ -14,35 +14,58 @@ from concurrent.futures import ThreadPoolExecutor
 from pathlib import Path
 
 from harness.common import ROCQ, Ck, _split_evals, _unlimit_stack, coq_list, coq_str, parse_coq_N_list
-from translate import c18_guard
+from translate import c18_guard, c18_ops
 
 MANIFEST = dict(
     technique='Rocq proof (POSIX join/normpath/abspath on character lists; soundness of every segment-wise guard form by '
-              'induction on a guard language) + ast guard translator + exhaustive vm_compute correspondence + audit-hook oracle',
+              'induction on a guard language; data-flow model of every OS call of RawFileSystem/FileSystemChain incl. File '
+              'handles; os.walk as a Section variable) + two fail-closed ast translators (guard, operations) + exhaustive '
+              'vm_compute correspondence + operations-model correspondence against audit-hook observations + audit-hook oracle',
     text='Theorems in Props/C18.v: for every guard expression accepted by the recogniser raise_sound (abs == root, '
-         'startswith(root + sep) in four spellings, commonpath == root, closed under and/or/not), every working directory, '
-         'root argument and path string, a path that RawFileSystem._resolve_path does not reject is absolute, contains no '
-         '".." component and its segments extend the segments of the root; the plain string-prefix guard is refuted with '
-         'root /t/root, path ../root_evil/secret.txt; normpath of an absolute path leaves no ".."; packlist.unify_path never '
-         'returns a path stepping above its base except the bare "..". The guard is regenerated from filesys.py on every '
-         'run and the obligation raise_sound(generated guard) is kernel-checked, together with a census that every '
-         'file-system access of RawFileSystem goes through _resolve_path. normpath, _resolve_path and unify_path are '
-         'compared with the model exhaustively over the segment alphabet {.., ., "", a, root, root_evil, root/x} (<= 5 '
-         'segments, four separator patterns, seven prefixes, six roots) by checksums computed inside the kernel VM. '
-         'Real temporary trees are searched with every open/stat/scandir observed.',
-    note='Trusted: Coq kernel + vm_compute, translate/c18_guard.py, the hand model SM/PathNorm.v of CPython posixpath (tied '
-         'by the exhaustive correspondence, POSIX only; Windows path semantics not covered), Adler-32 as the block '
+         'startswith(root + sep) in four spellings, commonpath == root, closed under and/or/not), every working directory '
+         '(also a different one at call time), root argument and path string, a path that RawFileSystem._resolve_path does '
+         'not reject is absolute, contains no ".." component and its segments extend the segments of the root, i.e. the '
+         'directory walk from / reaches the root and never leaves it; the plain string-prefix guard and the character-wise '
+         'os.path.commonprefix guard are refuted (root /t/root, path ../root_evil/secret.txt). Operations: the path '
+         'expression of every call of RawFileSystem that reaches the OS (open, os.walk, os.stat, os.path.isfile) is '
+         'regenerated from filesys.py by abstract interpretation of the method bodies (isinstance(x, File) narrowing, '
+         'local variables, .replace, os.path.join, _get_data, file.path); if each is a _resolve_path result (instance '
+         'obligation) then for every string argument and every File handle whatever strings it carries (built from a name '
+         'with the slashes changed, taken from an unconstrained system, written by hand) every path handed to the OS is '
+         'inside the root; trusting a handle because its name was validated is refuted with the name "..\\secret.txt"; '
+         'FileSystemChain and File touch no file system themselves and chain calls into a constrained member stay inside '
+         'the member root for every prefix (the prefix itself is not a jail: refuted, observation); for os.walk as an '
+         'arbitrary function obeying the entry-name contract every directory listed and every file found by walk_folder is '
+         'inside the root. normpath of an absolute path leaves no ".."; packlist.unify_path: an accepted path followed from '
+         'any base directory ends in it or below without leaving it, ".." can only be its last segment, the bare ".." '
+         'corner is exactly the parent (observation). normpath, _resolve_path and unify_path are compared with the model '
+         'exhaustively over two segment alphabets (plain; backslash-carrying and non-ASCII look-alikes) by checksums '
+         'computed inside the kernel VM; the operations model is compared with the accesses observed by an audit hook. '
+         'Real temporary trees (with literal backslash file names inside the root) are searched with every '
+         'open/stat/scandir observed, through strings, File handles and chains.',
+    note='Trusted: Coq kernel + vm_compute, translate/c18_guard.py and translate/c18_ops.py, the hand model SM/PathNorm.v of '
+         'CPython posixpath (tied by the exhaustive correspondence, POSIX only; Windows path semantics not covered) and the '
+         'evaluation of path expressions SM/PathOps.v (tied by the operations correspondence), Adler-32 as the block '
          'comparison, CPython audit events + a wrapper of os.stat as the observation of file-system access. Containment '
-         'is lexical (symbolic links inside the root are outside the quantifier). Escaping the *subfolder prefix* of a '
-         'FileSystemChain member while staying inside the RawFileSystem root is counted, not reported (the property '
-         'speaks about the root directory). unify_path("..") == ".." is an observation, carved out of the theorem.',
+         'is lexical (symbolic links inside the root are outside the quantifier). The os.walk contract (dirpaths are the '
+         'top joined with entry names; names contain no separator and are not "", ".", "..") is a hypothesis of the walk '
+         'theorem, not checked. Which string walk_folder stores in a yielded handle (os.path.relpath) is not modelled: the '
+         'theorems hold for any stored string because every consumer re-validates. Escaping the *subfolder prefix* of a '
+         'FileSystemChain member while staying inside the RawFileSystem root is counted, not reported (the property speaks '
+         'about the root directory). unify_path("..") == ".." is an observation, carved out of the theorem. '
+         'constrain_path=False and assignments to fs.path / fs.constrain_path from outside the class are exempt.',
 )
 
-IMPORTS = ['SV.SM.PathNorm', 'SV.SM.PathNormEnum', 'SV.Gen.Containment_gen', 'SV.Props.C18', 'Coq.NArith.NArith',
+IMPORTS = ['SV.SM.PathNorm', 'SV.SM.PathNormEnum', 'SV.SM.PathOps', 'SV.SM.PathWalkRel', 'SV.Gen.Containment_gen', 'SV.Gen.FsOps_gen', 'SV.Props.C18', 'Coq.NArith.NArith',
            'Coq.Lists.List']
 PRE = 'Import ListNotations.\n'
 CWD = '/w/cwd'
 ALPHA = ['..', '.', '', 'a', 'root', 'root_evil', 'root/x']
+# second alphabet: segments that CONTAIN backslashes (ordinary characters on POSIX), and non-ASCII look-alikes of '.', '..'
+# and '/' (fullwidth full stop U+FF0E, two dot leader U+2025, division slash U+2215) which must stay ordinary characters;
+# all are invariant under str.casefold (unify_path's model leaves casefold out)
+ALPHA2 = ['..', '.', 'a', '\\', '..\\', 'a\\..', '\u00e9', '\uff0e\uff0e', 'x\u2215y', '\u2025']
+ALPHABETS = {'alpha': ALPHA, 'alpha2': ALPHA2}
 PREFIXES = ['', '/', '//', '///', '/t/', '/t/root/../', '\\']
 ROOTS = ['/t/root', '/t/root/', '/', 't/root', '//t/root', '/t/root/x/..']
 KINDS = [0, 1, 2, 3]
@@ -75,8 +98,8 @@ def join_kind(kind: int, segs) -> str:
     return ''.join(out)
 
 
-def paths_of(prefix: str, kind: int, n: int) -> list[str]:
-    return [prefix + join_kind(kind, t) for t in itertools.product(ALPHA, repeat=n)]
+def paths_of(prefix: str, kind: int, n: int, alpha: str = 'alpha') -> list[str]:
+    return [prefix + join_kind(kind, t) for t in itertools.product(ALPHABETS[alpha], repeat=n)]
 
 
 def impl_resolve(fs, p: str) -> str:
@@ -95,15 +118,50 @@ def impl_unify(p: str) -> str:
         return '!'
 
 
+def path_shape(p: str) -> str:
+    """Coarse class of an input path, for the printed distribution."""
+    comps = p.split('/')
+    tags = ['abs' if p.startswith('/') else 'rel']
+    if '..' in comps:
+        tags.append('dotdot')
+    if '\\' in p:
+        tags.append('backslash')
+    if any('..' in c and c != '..' for c in comps):
+        tags.append('dotdot-inside-name')
+    if '//' in p:
+        tags.append('empty-seg')
+    if any(ord(c) > 127 for c in p):
+        tags.append('non-ascii')
+    return '+'.join(tags)
+
+
+def impl_relpath(p: str) -> str:
+    try:
+        return posixpath.relpath(p, '/t/root')
+    except ValueError:          # relpath('') : "no path specified"
+        return '!'
+
+
 def adler(results) -> int:
-    return zlib.adler32(('\n'.join(results) + '\n').encode('latin-1'))
+    text = '\n'.join(results) + '\n'
+    try:
+        return zlib.adler32(text.encode('latin-1'))
+    except UnicodeEncodeError:
+        # same recurrence over code points as SM/PathNormEnum.v (ad_char), which is Adler-32 when all are < 256
+        a, b = 1, 0
+        for ch in text:
+            a = (a + ord(ch)) % 65521
+            b = (b + a) % 65521
+        return (b << 16) | a
 
 
 def functions():
     """(name, Coq function text, implementation function) for every compared function."""
     from srctools.filesys import RawFileSystem
     fns = [('normpath', 'normpath', posixpath.normpath),
-           ('unify_path', '(fun p => enc_opt (unify_path p))', impl_unify)]
+           ('unify_path', '(fun p => enc_opt (unify_path p))', impl_unify),
+           ('relpath[/t/root]', f'(fun p => match p with [] => bang | _ => relpath {coq_str(CWD)} p {coq_str("/t/root")} end)',
+            impl_relpath)]
     with fake_cwd(CWD):
         for r in ROOTS:
             fs = RawFileSystem(r)
@@ -112,12 +170,13 @@ def functions():
     return fns
 
 
-def coq_run(ck: Ck, tag: str, exprs: list[str], timeout: int = 900) -> list[str] | None:
+def coq_run(ck: Ck, tag: str, exprs: list[str], timeout: int = 900, preamble: str = '') -> list[str] | None:
     """Like ck.coq_eval, but safe to call from several threads (own directory per call)."""
     d = Path(tempfile.mkdtemp(prefix=f'coq_{tag}_', dir=ck.scratch))
     body = ''.join(f'Require Import {i}.\n' for i in IMPORTS) + PRE
     body += 'Set Printing Width 1000000.\nSet Printing Depth 1000000.\n'
     body += f'Definition alpha : list str := {coq_list(coq_str(a) for a in ALPHA)}.\n'
+    body += f'Definition alpha2 : list str := {coq_list(coq_str(a) for a in ALPHA2)}.\n' + preamble
     for e in exprs:
         body += f'Eval vm_compute in ({e}).\n'
     f = d / 'blk.v'
@@ -144,38 +203,56 @@ def corr_exhaustive(ck: Ck) -> None:
     """Model vs implementation over the whole segment domain: per block one Adler-32 computed by vm_compute."""
     fns = functions()
     full = ck.thorough or bool(ck.tie_broken) or bool(ESCALATE)
+    # a job = one coqc process: (prefix, separator kind, [(alphabet, segment count, indexes of the functions compared)])
+    allf = list(range(len(fns)))
     jobs = []
     for pi, prefix in enumerate(PREFIXES):
         for kind in KINDS:
-            # quick tier: all lengths <= 4 everywhere, length 5 on a fixed third of the (prefix, separator) combinations
-            top = 5 if (full or (pi + kind) % 3 == 0) else 4
-            jobs.append((prefix, kind, list(range(0, top + 1))))
-    if ck.thorough:     # six segments for plain and alternating separators, relative and absolute
-        jobs += [(prefix, kind, [6]) for prefix in ('', '/') for kind in (0, 2)]
+            c = pi * 4 + kind
+            # quick tier: <= 4 segments; the big blocks compare normpath, unify_path and two of the six roots (rotating
+            # with the combination, so every root meets every separator pattern); 5 segments only when escalated
+            some = [0, 1, 2, 3 + c % 6, 3 + (c + 3) % 6]
+            # escalated quick tier (a tie is broken / _resolve_path changed): all functions on every block
+            parts = [('alpha', n, allf if (full or n <= 3) else some) for n in range(0, 5)]
+            if ck.thorough:
+                parts.append(('alpha', 5, allf))
+            # second alphabet (backslash-carrying and non-ASCII segments): <= 3 segments, 4 in the thorough tier
+            parts += [('alpha2', n, allf if (full or n <= 2) else some) for n in range(1, (4 if ck.thorough else 3) + 1)]
+            jobs.append((prefix, kind, parts))
+    if ck.thorough:     # six segments: relative with plain separators, absolute with alternating separators
+        jobs += [(prefix, kind, [('alpha', 6, allf)]) for prefix, kind in (('', 0), ('/', 2))]
 
     # the implementation runs here (sequentially, under the pinned cwd); the coqc processes run in parallel below
+    import time
+    t_impl = time.time()
     prepared = []
     with fake_cwd(CWD):
         for job in jobs:
-            prefix, kind, lens = job
+            prefix, kind, parts = job
             exprs, exp, meta = [], [], []
-            for n in lens:
-                ps = paths_of(prefix, kind, n)
-                for name, coqf, impl in fns:
+            for alpha, n, fidx in parts:
+                ps = paths_of(prefix, kind, n, alpha)
+                for p in ps:
+                    ck.hist('corr_path_shape', path_shape(p))
+                for fi in fidx:
+                    name, coqf, impl = fns[fi]
                     res = [impl(p) for p in ps]
                     exp.append(adler(res))
-                    meta.append((name, n, coqf, len(ps)))
-                    exprs.append(f'block_adler {coqf} (paths_of {coq_str(prefix)} {kind} alpha {n})')
+                    meta.append((name, n, coqf, len(ps), alpha))
+                    exprs.append(f'block_adler {coqf} (paths_of {coq_str(prefix)} {kind} {alpha} {n})')
                     ck.count('corr_exhaustive_cases', len(ps))
-                    ck.hist('corr_function', name.split('[')[0], len(ps))
-                    ck.hist('corr_segments', n, len(ps))
+                    ck.hist('corr_function', name, len(ps))
+                    ck.hist('corr_segments', f'{alpha}:{n}', len(ps))
+                    ck.hist('corr_alphabet', alpha, len(ps))
                     esc = sum(1 for x in res if x == '!')
-                    if name != 'normpath':
-                        ck.hist('corr_outcome', 'rejected', esc)
-                        ck.hist('corr_outcome', 'accepted', len(res) - esc)
+                    if name not in ('normpath', 'relpath[/t/root]'):
+                        ck.hist('corr_outcome', f'{name.split("[")[0]}:rejected', esc)
+                        ck.hist('corr_outcome', f'{name.split("[")[0]}:accepted', len(res) - esc)
                     if n >= 2:
-                        ck.seen(('blk', name, prefix, kind, n))
+                        ck.seen(('blk', name, prefix, kind, n, alpha))
             prepared.append((job, exprs, exp, meta))
+    import time
+    ck.extra['corr_exhaustive_impl_side_s'] = round(time.time() - t_impl, 1)
     with ThreadPoolExecutor(max_workers=8) as ex:
         outs = list(ex.map(lambda pr: coq_run(ck, f'p{PREFIXES.index(pr[0][0])}k{pr[0][1]}', pr[1]), prepared))
     bad_blocks = []
@@ -195,11 +272,12 @@ def corr_exhaustive(ck: Ck) -> None:
         ck.tie_broken.append('correspondence paths: model evaluation failed')
         return
     detail = []
-    for (job, (name, n, coqf, cnt)) in bad_blocks[:4]:
-        detail.append(locate_disagreement(ck, job[0], job[1], n, name, coqf))
+    for (job, (name, n, coqf, cnt, alpha)) in bad_blocks[:4]:
+        detail.append(locate_disagreement(ck, job[0], job[1], n, name, coqf, alpha))
     ck.obligation('correspondence:paths_exhaustive', not bad_blocks,
                   f'{nblocks} blocks ({ck.counts.get("corr_exhaustive_cases", 0)} cases) of normpath / unify_path / '
-                  f'RawFileSystem._resolve_path over 6 roots: {len(bad_blocks)} blocks disagree ' + '; '.join(map(str, detail)))
+                  f'RawFileSystem._resolve_path over 6 roots: {len(bad_blocks)} blocks disagree ' + '; '.join(map(str, detail))
+                  + f'; paths by alphabet {ck.distribution.get("corr_alphabet")}, by shape {ck.distribution.get("corr_path_shape")}')
     if bad_blocks:
         ck.tie_broken.append('correspondence paths (SM/PathNorm.v vs posixpath / _resolve_path / unify_path)')
         DISAGREE.setdefault('exhaustive', set()).update(m[0] for _, m in bad_blocks)
@@ -227,11 +305,11 @@ def model_predicted_escapes(ck: Ck) -> None:
     ck.extra['model_predicted_escapes'] = out[:12]
 
 
-def locate_disagreement(ck: Ck, prefix: str, kind: int, n: int, name: str, coqf: str):
+def locate_disagreement(ck: Ck, prefix: str, kind: int, n: int, name: str, coqf: str, alpha: str = 'alpha'):
     """Find the first case of a disagreeing block and show both results."""
     fn = {f[0]: f[2] for f in functions()}[name]
-    ps = paths_of(prefix, kind, n)
-    vals = coq_run(ck, 'loc', [f'case_adlers {coqf} (paths_of {coq_str(prefix)} {kind} alpha {n})'])
+    ps = paths_of(prefix, kind, n, alpha)
+    vals = coq_run(ck, 'loc', [f'case_adlers {coqf} (paths_of {coq_str(prefix)} {kind} {alpha} {n})'])
     if vals is None:
         return {'function': name, 'prefix': prefix, 'kind': kind, 'n': n, 'case': 'could not locate'}
     got = [_int(x) for x in vals[0].strip('[]').split(';') if x.strip()]
@@ -265,25 +343,32 @@ def corr_random(ck: Ck) -> None:
         if '..' in p and len(p) > 2:
             ck.seen(('rnd', p))
     ck.hist('corr_random_len', 'total', len(cases))
-    fl = coq_list(f[1] for f in fns)
-    pre = PRE + '''Fixpoint bad_res {A B} (f : A -> B) (ok : A -> B -> bool) (n : N) (l : list A) : list (N * B) := match l with [] => [] | x :: r => (if ok x (f x) then [] else [(n, f x)]) ++ bad_res f ok (n + 1)%N r end.
-Fixpoint sl_eqb (a b : list str) : bool := match a, b with [], [] => true | x :: a', y :: b' => str_eqb x y && sl_eqb a' b' | _, _ => false end.
-'''
-    from harness.common import parse_coq_nested
+    # only the paths go to Coq; the model answers with one checksum per (function, case), compared here
     bad_fns: set[str] = set()
-    for lo in range(0, len(cases), 300):
-        part = list(zip(cases[lo:lo + 300], exp[lo:lo + 300]))
-        lit = coq_list(f'({coq_str(p)}, {coq_list(coq_str(r) for r in rs)})' for p, rs in part)
-        vals = ck.coq_eval(IMPORTS, [f'bad_res (fun c : str * list str => map (fun f => f (fst c)) {fl}) '
-                                     f'(fun c m => sl_eqb m (snd c)) 0%N {lit}'], name='rnd', preamble=pre)
+    los = list(range(0, len(cases), 300))
+
+    def batch(lo):
+        lit = coq_list(coq_str(p) for p in cases[lo:lo + 300])
+        return coq_run(ck, f'rnd{lo}', [f'case_adlers {f[1]} rnd_paths' for f in fns],
+                       preamble=f'Definition rnd_paths : list str := {lit}.\n')
+    with ThreadPoolExecutor(max_workers=6) as ex:
+        outs = list(ex.map(batch, los))
+    for lo, vals in zip(los, outs):
         if vals is None:
             ck.obligation('correspondence:paths_random', False, 'model could not be evaluated')
             ck.tie_broken.append('correspondence random paths: model evaluation failed')
             return
-        for idx, model in parse_coq_nested(vals[0]):
-            mres = [''.join(chr(c) for c in m) for m in model]
-            bad.append((lo + idx, mres))
-            bad_fns |= {f[0] for f, a, b in zip(fns, mres, exp[lo + idx]) if a != b}
+        for fi, v in enumerate(vals):
+            got = [_int(x) for x in v.strip('[]').split(';') if x.strip()]
+            for k, g in enumerate(got):
+                if adler([exp[lo + k][fi]]) != g:
+                    bad_fns.add(fns[fi][0])
+                    bad.append((lo + k, fi))
+    bad.sort()
+    if bad:     # fetch the model's own answers for the first disagreeing case
+        k0 = bad[0][0]
+        mv = coq_run(ck, 'rnd_first', [f'{f[1]} {coq_str(cases[k0])}' for f in fns])
+        bad = [(k0, [''.join(chr(c) for c in parse_coq_N_list(x)) for x in mv] if mv else ['?'])] + bad[1:]
     ck.obligation('correspondence:paths_random', not bad,
                   f'{len(cases)} raw strings x {len(fns)} functions, model vs implementation: {len(bad)} disagreements'
                   + (f' in {sorted(bad_fns)}; first: {cases[bad[0][0]]!r} -> impl {exp[bad[0][0]]!r} model {bad[0][1]!r}' if bad else ''))
@@ -317,6 +402,10 @@ TREE = {
     't/root_evil/secret.txt', 't/root_evil/a', 't/root_evil/sub/deep.txt', 't/root_evil/root/x',
     't/rootx', 't/root.bak/in.txt', 't/other/in.txt', 't/roo/in.txt',
     'elsewhere/data.txt',
+    # files INSIDE the root whose literal names contain backslashes (ordinary characters on POSIX): the name validates as
+    # inside, the File handle built from it stores the name with '\\' turned into '/', i.e. a path that leaves the root
+    't/root/..\\above.txt', 't/root/..\\root_evil\\secret.txt', 't/root/sub\\..\\..\\above.txt',
+    't/root/sub/..\\in.txt', 't/root/sub/..\\sub_evil\\x.txt',
 }
 # (label, root relative to BASE or spelled otherwise, how it is passed)
 ROOT_CONFIGS = [
@@ -329,7 +418,7 @@ ROOT_CONFIGS = [
     ('nested', '{BASE}/t/root/sub'),           # sibling t/root/sub_evil extends its name
 ]
 CHAIN_PREFIXES = [None, '', 'sub', 'sub/']
-OPS = ['contains', 'getitem', 'open_bin', 'open_str', 'walk']
+OPS = ['contains', 'getitem', 'open_bin', 'open_str', 'walk', 'handle_loose', 'handle_made']
 SEGS = ['..', '..', '.', '', 'in.txt', 'a', 'sub', 'deep.txt', 'root', 'root_evil', 'secret.txt', 't', 'rootx', 'root.bak',
         'sub_evil', 'x.txt', 'x', 'above.txt', 'top.txt', 'other', 'roo', 'nested.txt', 'elsewhere', 'data.txt']
 
@@ -399,9 +488,19 @@ def is_inside(root: str, p: str) -> bool:
     return q[:len(r)] == r
 
 
+def _handle_for(fs, raw, chain_prefix, h):
+    """A File of the raw filesystem as the object under test would hand it out (wrapped for a FileSystemChain)."""
+    from srctools.filesys import File
+    return h if chain_prefix is None else File(fs, h.path, h)
+
+
 def run_op(base: str, root_spec: str, chain_prefix, op: str, path_t: str) -> dict:
-    """Run one operation on a fresh filesystem object; returns outcome, data and the observed accesses."""
-    from srctools.filesys import RootEscapeError
+    """Run one operation on a fresh filesystem object; returns outcome, data and the observed accesses.
+
+    handle_loose: a File produced by an UNconstrained RawFileSystem on the same folder (its lookup is not observed, it
+    is exempt) is opened through the constrained one.  handle_made: a File built by hand, File(fs, path, path).
+    Both call open_bin, open_str and the cache key separately, each may raise RootEscapeError."""
+    from srctools.filesys import File, RawFileSystem, RootEscapeError
     path = path_t.replace('{BASE}', base)
     old = os.getcwd()
     os.chdir(base)
@@ -409,9 +508,22 @@ def run_op(base: str, root_spec: str, chain_prefix, op: str, path_t: str) -> dic
     try:
         fs, raw = make_fs(base, root_spec, chain_prefix)
         root = raw.path
+        handle = None
+        prep = None
+        if op == 'handle_loose' and chain_prefix is not None:
+            prep = 'no-handle:chain'          # a chain would open the wrapped handle through the unconstrained system
+        elif op == 'handle_loose':
+            try:
+                handle = _handle_for(fs, raw, chain_prefix, RawFileSystem(raw.path, constrain_path=False)[path])
+            except (OSError, ValueError, UnicodeError) as e:
+                prep = 'no-handle:' + type(e).__name__
+        elif op == 'handle_made':
+            handle = _handle_for(fs, raw, chain_prefix, File(raw, path, path))
         with observe() as ev:
             try:
-                if op == 'contains':
+                if prep is not None:
+                    out = prep
+                elif op == 'contains':
                     out = 'ok:' + str(path in fs)
                 elif op == 'getitem':
                     f = fs[path]
@@ -430,13 +542,46 @@ def run_op(base: str, root_spec: str, chain_prefix, op: str, path_t: str) -> dic
                         data.append(fh2.read())
                     out = 'ok:data'
                 elif op == 'walk':
-                    n = 0
+                    n = rejected = 0
                     for f in fs.walk_folder(path):
                         n += 1
-                        if n <= 40:
-                            with f.open_bin() as fh:
-                                data.append(fh.read().decode())
+                        if n <= 60:
+                            try:      # a yielded handle may itself be refused (literal backslash names); keep walking
+                                with f.open_bin() as fh:
+                                    data.append(fh.read().decode())
+                            except RootEscapeError:
+                                rejected += 1
                     out = f'ok:{n} files'
+                elif op in ('handle_loose', 'handle_made'):
+                    done = []
+                    # a handle of the unconstrained system opens through ITS system when asked itself: only the calls
+                    # made on the constrained filesystem count for handle_loose
+                    hows = ('fs.open_bin', 'fs.open_str', 'fs._get_cache_key') if op == 'handle_loose' else \
+                        ('fs.open_bin', 'fs.open_str', 'File.open_bin', 'File.open_str', 'File.cache_key')
+                    for how in hows:
+                        try:
+                            if how == 'fs.open_bin':
+                                with fs.open_bin(handle) as fh:
+                                    data.append(fh.read().decode())
+                            elif how == 'fs.open_str':
+                                with fs.open_str(handle) as fh2:
+                                    data.append(fh2.read())
+                            elif how == 'File.open_bin':
+                                with handle.open_bin() as fh:
+                                    data.append(fh.read().decode())
+                            elif how == 'File.open_str':
+                                with handle.open_str() as fh2:
+                                    data.append(fh2.read())
+                            elif how == 'fs._get_cache_key':
+                                fs._get_cache_key(handle)
+                            else:
+                                handle.cache_key()
+                            done.append(how)
+                        except RootEscapeError:
+                            pass
+                        except (OSError, ValueError, UnicodeError):
+                            done.append(how + ':error')
+                    out = 'ok:handle ' + ','.join(done) if done else 'RootEscapeError'
                 else:
                     raise AssertionError(op)
             except RootEscapeError:
@@ -457,7 +602,7 @@ def run_op(base: str, root_spec: str, chain_prefix, op: str, path_t: str) -> dic
         sub = os.path.join(root, chain_prefix)
         pre_escapes = sum(1 for k, p in events if is_inside(root, p) and not is_inside(sub, p))
     return {'outcome': out, 'root': root, 'events': events, 'escapes': escapes, 'leaked': leaked, 'data': data[:3],
-            'prefix_escapes': pre_escapes}
+            'prefix_escapes': pre_escapes, 'handle_path': None if handle is None else handle.path}
 
 
 def classify(root: str, p: str) -> str:
@@ -507,8 +652,9 @@ def search_trees(ck: Ck) -> None:
         if not r['escapes'] and not r['leaked']:
             return False
         where = r['escapes'][0][1] if r['escapes'] else os.path.join(base, r['leaked'][0][len('CONTENT-OF:'):])
-        key = 'escape-' + classify(r['root'], where)
+        key = ('handle-' if op.startswith('handle_') else '') + 'escape-' + classify(r['root'], where)
         rep = {'root': root_spec, 'root_config': label, 'chain_prefix': cp, 'op': op, 'path': path_t,
+               'file_handle_path': r['handle_path'],
                'outcome': r['outcome'], 'accessed_outside_root': [[k, p.replace(base, '{BASE}')] for k, p in r['escapes'][:4]],
                'data_returned': r['leaked'][:2], 'how': 'checks.c18.replay: builds the tree TREE under a fresh {BASE} and runs the op'}
         rank = (0 if r['leaked'] else 1, len(path_t))
@@ -522,12 +668,13 @@ def search_trees(ck: Ck) -> None:
     for label, root_spec in ROOT_CONFIGS:
         root_abs_t = '{BASE}/t/root/sub' if label == 'nested' else '{BASE}/t/root'
         tp = ['../root_evil/secret.txt', '..\\root_evil\\secret.txt', '../root_evil', '../rootx', '../root.bak/in.txt',
-              '{BASE}/t/root_evil/secret.txt', '../sub_evil/x.txt'] + targeted_paths(base, root_abs_t)
+              '{BASE}/t/root_evil/secret.txt', '../sub_evil/x.txt', '..\\above.txt', '..\\in.txt', '../above.txt',
+              '../in.txt', 'sub\\..\\..\\above.txt'] + targeted_paths(base, root_abs_t)
         for cp in CHAIN_PREFIXES:
             if cp is not None and label not in ('abs', 'relative', 'nested'):
                 continue
             for path_t in tp:
-                ops = OPS if cp is None or label == 'abs' else ['getitem', 'walk']
+                ops = OPS if cp is None or label == 'abs' else ['getitem', 'walk', 'handle_made']
                 for op in ops:
                     case(label, root_spec, cp, op, path_t)
     # 2. random segment paths
@@ -572,6 +719,122 @@ def search_trees(ck: Ck) -> None:
     shutil.rmtree(base_dir, ignore_errors=True)
 
 
+# ------------------------------------------------------------------------------------------------ ops model vs observed accesses
+OPS_CASES = [  # (label, method of RawFileSystem, branch)
+    ('contains', '_file_exists', 'str'), ('lookup', '_get_file', 'str'), ('open_bin', 'open_bin', 'str'),
+    ('open_str', 'open_str', 'str'), ('walk', 'walk_folder', 'str'), ('handle_open_bin', 'open_bin', 'File'),
+    ('handle_open_str', 'open_str', 'File'), ('handle_cache_key', '_get_cache_key', 'File'),
+]
+KCODE = {'open': 1, 'os.walk': 2, 'os.stat': 3, 'os.lstat': 3}
+
+
+def corr_ops(ck: Ck) -> None:
+    """The data-flow model of the operations (Gen/FsOps_gen.v + peval) against what the implementation really hands to
+    the OS: for (method, branch, argument, handle strings) the model lists (callee, path) of every access; the audit
+    hook observes the real ones.  Handles are built with DIFFERENT path and data strings, so a model that confuses the
+    two fields disagrees."""
+    from srctools.filesys import File, RawFileSystem, RootEscapeError
+    base_dir = Path(tempfile.mkdtemp(prefix='ops_', dir=ck.scratch))
+    base = os.path.realpath(base_dir)
+    build_tree(Path(base))
+    root = base + '/t/root'
+    rng = ck.rng
+    pool = ['in.txt', 'sub/in.txt', 'sub/../in.txt', '../above.txt', '..\\above.txt', 'sub\\..\\in.txt', '../root_evil/secret.txt',
+            '', '.', 'sub', '../rootx', base + '/t/root/a', base + '/t/above.txt', '/', 'nope', 'sub//deep.txt', './a',
+            '..', 'x/../../root/in.txt', 'root_evil/nested.txt', '..\\root_evil\\secret.txt', 'sub/..\\in.txt']
+    cases = []
+    for label, m, b in OPS_CASES:
+        for p in pool:
+            cases.append((label, m, b, p, rng.choice(pool), rng.choice(pool)))
+    for _ in range(ck.budget(120, 1500)):
+        label, m, b = rng.choice(OPS_CASES)
+        mk = lambda: rng.choice(['', '/', base + '/t/']) + join_kind(rng.choice([0, 0, 1, 2]), [rng.choice(SEGS) for _ in range(rng.choice([1, 2, 3, 4]))])
+        cases.append((label, m, b, mk(), mk(), mk()))
+    observed = []
+    old = os.getcwd()
+    os.chdir(base)
+    try:
+        for label, m, b, arg, hpath, data in cases:
+            fs = RawFileSystem(root)
+            h = File(fs, hpath, data)
+            with observe() as ev:
+                try:
+                    if label == 'contains':
+                        arg in fs
+                    elif label == 'lookup':
+                        fs[arg]
+                    elif label == 'open_bin':
+                        fs.open_bin(arg).close()
+                    elif label == 'open_str':
+                        fs.open_str(arg).close()
+                    elif label == 'walk':
+                        for _f in fs.walk_folder(arg):
+                            break
+                    elif label == 'handle_open_bin':
+                        fs.open_bin(h).close()
+                    elif label == 'handle_open_str':
+                        fs.open_str(h).close()
+                    else:
+                        fs._get_cache_key(h)
+                except (RootEscapeError, OSError, ValueError, UnicodeError):
+                    pass
+            observed.append(sorted({(KCODE[k], p) for k, p in ev if k in KCODE}))
+            ck.count('ops_model_cases')
+            ck.hist('ops_model_case', f'{label}:{"access" if observed[-1] else "no-access"}')
+            if observed[-1] and ('..' in arg + hpath + data or '\\' in arg + hpath + data):
+                ck.seen(('ops', label, arg, hpath, data))
+    finally:
+        os.chdir(old)
+        shutil.rmtree(base_dir, ignore_errors=True)
+    from harness.common import parse_coq_nested
+    pre = ('Require Import Coq.Strings.String.\n'
+           'Definition kcode (c : string) : N := if String.eqb c "open" then 1%N else if String.eqb c "os.walk" then 2%N else 3%N.\n'
+           f'Definition o_cwd : str := {coq_str(base)}.\nDefinition o_root : str := {coq_str(root)}.\n'
+           'Definition predict (m b : string) (arg hpath data : str) : list (N * str) :=\n'
+           '  map (fun x => (kcode (fst x), snd x)) (site_accesses raise_if o_cwd o_root '
+           '{| i_arg := arg; i_data := data; i_hpath := hpath; i_prefix := []; i_walked := [] |} m b raw_sites).\n')
+    bad = []
+    missing = set()
+    chunks = [list(range(lo, min(lo + 150, len(cases)))) for lo in range(0, len(cases), 150)]
+
+    def batch(idx):
+        exprs = ['[' + '; '.join(f'predict "{cases[k][1]}" "{cases[k][2]}" {coq_str(cases[k][3])} {coq_str(cases[k][4])} '
+                                 f'{coq_str(cases[k][5])}' for k in idx) + ']',
+                 '[' + '; '.join(f'has_method "{m}" "{b}" raw_sites' for _, m, b in OPS_CASES) + ']']
+        return coq_run(ck, f'ops{idx[0]}', exprs, preamble=pre)
+    with ThreadPoolExecutor(max_workers=6) as ex:
+        outs = list(ex.map(batch, chunks))
+    for idx, vals in zip(chunks, outs):
+        if vals is None:
+            ck.obligation('correspondence:operations_model', False, 'model could not be evaluated')
+            ck.tie_broken.append('correspondence operations model: evaluation failed')
+            return
+        present = dict(zip([(m, b) for _, m, b in OPS_CASES], parse_coq_nested(vals[1])))
+        for k, pred in zip(idx, parse_coq_nested(vals[0])):
+            if not present[(cases[k][1], cases[k][2])]:
+                missing.add(cases[k][1])          # method renamed / restructured: nothing to compare against
+                continue
+            model = sorted({(int(c), ''.join(chr(x) for x in a)) for c, a in pred})
+            if model != observed[k]:
+                bad.append({'op': cases[k][0], 'method': cases[k][1], 'branch': cases[k][2], 'arg': cases[k][3],
+                            'handle_path': cases[k][4], 'handle_data': cases[k][5], 'root': root.replace(base, '{BASE}'),
+                            'observed': [[c, p.replace(base, '{BASE}')] for c, p in observed[k]],
+                            'model': [[c, p.replace(base, '{BASE}')] for c, p in model]})
+    if missing:
+        ck.notes.append(f'operations correspondence: no site table for methods {sorted(missing)} (renamed?); those cases were skipped')
+    ck.extra['ops_model_methods_without_sites'] = sorted(missing)
+    ck.obligation('correspondence:operations_model', not bad,
+                  f'{len(cases)} (operation, argument, handle path, handle data) cases: the (callee, path) list of the model '
+                  f'(Gen/FsOps_gen.v through peval) vs the accesses observed by the audit hook: {len(bad)} disagreements'
+                  + (f'; first: {bad[0]}' if bad else ''))
+    if bad:
+        ck.tie_broken.append('correspondence operations model (SM/PathOps.v + Gen/FsOps_gen.v vs observed OS accesses)')
+        ck.extra['ops_model_disagreements'] = bad[:5]
+        DISAGREE.setdefault('ops', set()).update(b['method'] for b in bad)
+    ck.sample({'operations_model_case': dict(zip(('op', 'method', 'branch', 'arg', 'handle_path', 'handle_data'), cases[2])),
+               'observed_accesses': [[c, p.replace(base, '{BASE}')] for c, p in observed[2]]})
+
+
 def search_unify(ck: Ck) -> None:
     """unify_path on every domain path + random ones: the result, joined under a base, must stay below it."""
     from srctools.packlist import unify_path
@@ -614,23 +877,42 @@ def search_unify(ck: Ck) -> None:
 
 
 # ------------------------------------------------------------------------------------------------ main
+def _stage(ck: Ck, name: str, t0: float) -> float:
+    import time
+    t1 = time.time()
+    ck.extra.setdefault('stage_wall_s', {})[name] = round(t1 - t0, 1)
+    return t1
+
+
 def run(ck: Ck) -> None:
+    import time
+    t = time.time()
     ck.rule = ('correspondence: EVERY path prefix + join(segments) with segments from {.., ., "", a, root, root_evil, root/x}, '
-               '<= 5 segments (quick: 5 on a third of the prefix/separator combinations), 4 separator patterns (/, \\, '
-               'alternating), 7 prefixes, for normpath, unify_path and _resolve_path under 6 roots; a block (function, '
-               'prefix, separators, length >= 2) is one distinct non-trivial case; plus raw random strings, non-trivial = '
-               'contains ".." and longer than 2. Oracle: operations on real trees, distinct by (root configuration, chain '
+               '<= 5 segments (quick: <= 4, and on the 4-segment blocks two of the six roots per prefix/separator '
+               'combination, rotating), and from the second alphabet of backslash-carrying and non-ASCII look-alike '
+               'segments {.., ., a, \\, ..\\, a\\.., e-acute, fullwidth "..", x<division slash>y, two-dot-leader} <= 3 '
+               '(thorough 4) segments, 4 separator patterns (/, \\, alternating), 7 prefixes, for normpath, unify_path and '
+               '_resolve_path under 6 roots; a block (function, prefix, separators, alphabet, length >= 2) is one distinct '
+               'non-trivial case; plus raw random strings, non-trivial = contains ".." and longer than 2; plus the '
+               'operations model: (method, branch, argument, handle path, handle data) cases compared with the '
+               'audit-hook observation, non-trivial = reached the OS and carries ".." or a backslash. Oracle: operations on real trees, distinct by (root configuration, chain '
                'prefix, operation, path), non-trivial = the path contains "..", a backslash or is absolute and the '
                'operation reached the file system, or it was rejected with RootEscapeError')
     ck.trusted.append('hand-written model SM/PathNorm.v of posixpath.join/normpath/abspath/commonpath and of _resolve_path / '
                       'unify_path (tied by exhaustive correspondence on every run); Adler-32 block comparison')
     ck.trusted.append('CPython audit events (open, os.scandir, os.listdir, os.walk) and a wrapper around os.stat/os.lstat as '
                       'the observation of which paths an operation touches')
+    ck.trusted.append('translate/c18_ops.py (abstract interpretation of the RawFileSystem / FileSystemChain method bodies into '
+                      'path expressions) and their evaluation SM/PathOps.v peval, tied by the operations correspondence')
+    ck.assumptions.append('os.walk contract (hypothesis of c18_walk_found_inside, not checked): every dirpath is the top joined '
+                          'with directory-entry names; entry names contain no separator and are not "", ".", ".."')
+    ck.assumptions.append('File handles may carry any strings; fs.path / fs.constrain_path are not assigned from outside the class')
     ck.assumptions.append('POSIX path semantics (os.sep == "/", backslash is an ordinary character); containment is lexical '
                           'on normalised absolute paths, symbolic links are outside the quantifier')
     ck.assumptions.append('the working directory is absolute (hypothesis is_abs cwd of the theorems); os.getcwd() always is')
     assert os.sep == '/'
     ok_t = ck.translate('Containment_gen', c18_guard.translate)
+    ok_t = ck.translate('FsOps_gen', c18_ops.translate) and ok_t
     side = ck.extra.get('translated', {}).get('Containment_gen', {})
     built = ok_t and ck.build(['Props/C18.vo', 'SM/PathNormEnum.vo'])
     if built:
@@ -639,32 +921,59 @@ def run(ck: Ck) -> None:
             'guard_is_a_sound_segmentwise_form': 'raise_sound raise_if',
             'root_is_stored_as_abspath': 'root_is_abspath',
             'root_not_reassigned_by_the_class': 'negb root_reassigned_in_class',
+            'constrain_flag_is_the_constructor_argument': 'constrain_flag_is_the_constructor_argument',
             'every_fs_access_goes_through_resolve_path': 'all_access_sites_resolved',
+            # data flow of every OS call (Gen/FsOps_gen.v): hypotheses of c18_every_access_inside / c18_chain_accesses_inside
+            'every_os_call_receives_a_resolve_path_result': 'every_os_call_receives_a_resolve_result',
+            'file_handle_consumers_revalidate_the_stored_string': 'handle_consumers_revalidate_stored_string',
+            'chain_and_file_classes_touch_no_file_system_themselves': 'chain_and_file_classes_touch_no_file_system',
         })
+        ops_side = ck.extra.get('translated', {}).get('FsOps_gen', {})
+        for m, c, b, p, _ in ops_side.get('raw_sites', []):
+            ck.hist('os_call_site', f'{m}:{c}:{b}:{p}')
+        info = ck.coq_eval(IMPORTS, ['handles_store_the_validated_string', 'length (handle_sites raw_sites)'], name='opsinfo')
+        if info is not None:
+            ck.extra['handles_store_the_validated_string(informational)'] = info[0]
+            ck.extra['handle_consuming_sites'] = info[1]
         if not res['guard_is_a_sound_segmentwise_form']:
             model_predicted_escapes(ck)
         if side.get('resolve_digest') not in PINNED_DIGESTS:
             # DESIGN 5.4: a changed hand-modelled function escalates the correspondence budget, it is not an alarm
             ck.notes.append('RawFileSystem._resolve_path differs from the texts the model was written against: '
-                            'correspondence runs with the thorough budget')
+                            'correspondence compares every function on every block (escalated budget)')
             ESCALATE.append(True)
+        t = _stage(ck, 'translate+build+obligations', t)
         corr_exhaustive(ck)
+        t = _stage(ck, 'corr_exhaustive', t)
         corr_random(ck)
+        t = _stage(ck, 'corr_random', t)
         check_casefold(ck)
+        t = _stage(ck, 'casefold', t)
+        corr_ops(ck)
+        t = _stage(ck, 'corr_ops', t)
     search_trees(ck)
+    t = _stage(ck, 'search_trees', t)
     search_unify(ck)
+    t = _stage(ck, 'search_unify', t)
     keys = {v['key'] for v in ck.violations}
-    if any(k.startswith('escape-') for k in keys):
+    if any(k.startswith(('escape-', 'handle-escape-')) for k in keys):
         ck.explain('instance:guard_is_a_sound_segmentwise_form')
         ck.explain('instance:every_fs_access_goes_through_resolve_path')
+        ck.explain('instance:every_os_call_receives_a_resolve_path_result')
+        ck.explain('instance:file_handle_consumers_revalidate_the_stored_string')
+        ck.explain('instance:chain_and_file_classes_touch_no_file_system_themselves')
+        ck.explain('translate:FsOps_gen')
         ck.explain('instance:root_')
+        ck.explain('instance:constrain_flag')
         ck.explain('translate:Containment_gen')
     # A model/implementation disagreement is explained only when every disagreeing function belongs to the part whose
     # concrete violation was exhibited (unify_path by an escaping pack path, _resolve_path by an observed escape).
+    if DISAGREE.get('ops') and any(k.startswith(('escape-', 'handle-escape-')) for k in keys):
+        ck.explain('correspondence:operations_model')
     for stage, ob in (('exhaustive', 'correspondence:paths_exhaustive'), ('random', 'correspondence:paths_random')):
         fs = DISAGREE.get(stage, set())
         if fs and all(f == 'unify_path' and 'unify-path-escapes' in keys
-                      or f.startswith('resolve[') and any(k.startswith('escape-') for k in keys) for f in fs):
+                      or f.startswith('resolve[') and any(k.startswith(('escape-', 'handle-escape-')) for k in keys) for f in fs):
             ck.explain(ob)
 
 
